@@ -2245,9 +2245,12 @@ chld_cb(EV_P_ ev_child *c, int UNUSED(revents))
 		if (!t->nsim) {
 			free_task(t);
 		}
-	} else if (UNLIKELY(t->w.reschedule_cb == NULL) && !t->nsim) {
+	} else if (UNLIKELY(t->w.reschedule_cb == NULL) && !t->nsim &&
+		   !ev_is_pending(&t->w)) {
 		/* we promised taskB_cb to kill this guy
-		 * once the last of his children is gone */
+		 * once the last of his children is gone,
+		 * unless the last run is yet to be started in this very
+		 * iteration, then task_cb or that run's child will do it */
 		unsched(EV_A_ &t->w, 0);
 	}
 	free_chld(c);
